@@ -21,6 +21,9 @@ type iterSource struct {
 	elemT types.Type
 }
 
+// probeKey: st.iterPos[id+probeKey] counts the HasNext calls on source id.
+const probeKey = 1000000
+
 // bindIteratorParam registers v (a value of type fp.Iterator[T]) as a source.
 func (x *Exec) bindIteratorParam(st *State, t types.Type, v *Term) bool {
 	if !isFpNamed(t, "Iterator") {
@@ -37,6 +40,7 @@ func (x *Exec) bindIteratorParam(st *State, t types.Type, v *Term) bool {
 	src.n = c.Const(fmt.Sprintf("it%d.n", id), c.Int)
 	x.iterSources[id] = src
 	st.iterPos[id] = c.IntLit(0)
+	st.iterPos[id+probeKey] = c.IntLit(0) // number of HasNext calls made on this source so far
 	hn, nx, cc := c.Sel(v, 0), c.Sel(v, 1), c.Sel(v, 2)
 	x.iterSrc[hn] = iterRole{id: id, role: "hasNext", elem: et}
 	x.iterSrc[nx] = iterRole{id: id, role: "next", elem: et}
@@ -59,6 +63,9 @@ func (x *Exec) iterCall(st *State, role iterRole) []Outcome {
 	pos := st.iterPos[role.id]
 	switch role.role {
 	case "hasNext":
+		if p, ok := st.iterPos[role.id+probeKey]; ok {
+			st.iterPos[role.id+probeKey] = c.Arith("+", p, c.IntLit(1))
+		}
 		return []Outcome{{st: st, kind: ORet, val: c.Cmp("<", pos, src.n)}}
 	case "next":
 		var res []Outcome
@@ -109,6 +116,101 @@ func (x *Exec) interceptIter(st *State, name string, args []*Term) ([]Outcome, b
 			return nil, true
 		}
 		return ret(c.Ctor(c.Unit))
+	case "Reveal":
+		// Reveal(Rec_f(args)): the definition of the opaque application, for this instance:  app == body(args)
+		app := args[0]
+		neg := false
+		if app.Op == "not" {
+			app, neg = app.Args[0], true
+		}
+		_ = neg
+		rec, ok := x.recApps[app]
+		if !ok {
+			// already transparent (concrete node): nothing to reveal
+			return ret(c.Ctor(c.Unit))
+		}
+		x.revealing = app
+		outs := x.recSpecCall(st.clone(), rec.fn, rec.args)
+		x.revealing = nil
+		if len(outs) != 1 || outs[0].kind != ORet {
+			return abortOut(st, "Reveal: body outside the supported subset"), true
+		}
+		for _, f := range outs[0].st.facts[len(st.facts):] {
+			x.assumeFact(st, f)
+		}
+		x.assumeFact(st, c.Eq(app, outs[0].val))
+		return ret(c.Ctor(c.Unit))
+	case "Ghost":
+		nameT := args[0]
+		if nameT.Op != "str" {
+			return abortOut(st, "Ghost needs a literal name"), true
+		}
+		for i := len(x.stack) - 1; i >= 0; i-- {
+			r := x.stack[i]
+			for k, prm := range r.fn.Params {
+				if prm.Name() == nameT.Name && k < len(r.args) {
+					return ret(r.args[k])
+				}
+			}
+		}
+		return abortOut(st, "Ghost(%q): no parameter of that name in the callers", nameT.Name), true
+	case "Fold":
+		// Fold(func() bool { return Rec_p(obj, …) }) for a freshly allocated obj: the body is an obligation here and
+		// the predicate becomes known as an application on obj
+		x.folding++
+		v, def := x.applyMerged(st, x.unboxAny(args[0]), nil)
+		x.folding--
+		if v == nil {
+			return abortOut(st, "Fold: expression outside the supported subset"), true
+		}
+		goal := c.And(def, v)
+		x.nFrame++
+		x.addSplit(fmt.Sprintf("ghost assertion #%d (fold)", x.nFrame), x.pcOf(st), goal, !st.specPhase)
+		x.assumeFact(st, goal)
+		return ret(c.Ctor(c.Unit))
+	case "AssertDyn":
+		// Assert whose argument is a thunk evaluated with dynamic-dispatch facts for the objects allocated so far
+		x.dynDispatch++
+		v, def := x.applyMerged(st, x.unboxAny(args[0]), nil)
+		x.dynDispatch--
+		if v == nil {
+			return abortOut(st, "AssertDyn: expression outside the supported subset"), true
+		}
+		goal := c.And(def, v)
+		x.nFrame++
+		x.addSplit(fmt.Sprintf("ghost assertion #%d", x.nFrame), x.pcOf(st), goal, !st.specPhase)
+		x.assumeFact(st, goal)
+		return ret(c.Ctor(c.Unit))
+	case "AssertPure":
+		// as Assert, but proved from the quantifier-free part of the path condition only
+		// (sound: fewer hypotheses; for facts that hold by definition, whatever the context)
+		x.nFrame++
+		var pc []*Term
+		memo := map[*Term]bool{}
+		var keep func(t *Term)
+		keep = func(t *Term) {
+			if t.Op == "and" {
+				for _, a := range t.Args {
+					keep(a)
+				}
+				return
+			}
+			if !hasQuant(t, memo) {
+				pc = append(pc, t)
+			}
+		}
+		for _, t := range x.pcOf(st) {
+			keep(t)
+		}
+		x.addSplit(fmt.Sprintf("ghost assertion #%d", x.nFrame), pc, args[0], !st.specPhase)
+		x.assumeFact(st, args[0])
+		return ret(c.Ctor(c.Unit))
+	case "Assert":
+		// proof cut: an obligation of its own here, a known fact afterwards
+		x.nFrame++
+		x.addSplit(fmt.Sprintf("ghost assertion #%d", x.nFrame), x.pcOf(st), args[0], !st.specPhase)
+		x.assumeFact(st, args[0])
+		return ret(c.Ctor(c.Unit))
 	case "Havoc":
 		// variadic: args[0] is a slice of interface values built in a local array
 		roots := x.sliceElems(st, args[0], c.Iface)
@@ -156,7 +258,7 @@ func (x *Exec) interceptIter(st *State, name string, args []*Term) ([]Outcome, b
 			return ret(v)
 		}
 		return abortOut(st, "IterPosAtEntry: no entry position"), true
-	case "IterLen", "IterPos", "IterAt":
+	case "IterLen", "IterPos", "IterAt", "IterProbes":
 		src := x.sourceOf(args[0])
 		if src == nil {
 			return abortOut(st, "%s: argument is not an input iterator", name), true
@@ -166,6 +268,8 @@ func (x *Exec) interceptIter(st *State, name string, args []*Term) ([]Outcome, b
 			return ret(src.n)
 		case "IterPos":
 			return ret(st.iterPos[src.id])
+		case "IterProbes":
+			return ret(st.iterPos[src.id+probeKey])
 		default:
 			return ret(c.Select(src.elems, args[1]))
 		}
@@ -284,4 +388,19 @@ func (x *Exec) mutableCells(st *State, roots []*Term) map[int]bool {
 		visit(r)
 	}
 	return mut
+}
+
+func hasQuant(t *Term, memo map[*Term]bool) bool {
+	if v, ok := memo[t]; ok {
+		return v
+	}
+	r := t.Op == "forall" || t.Op == "exists"
+	for _, a := range t.Args {
+		if r {
+			break
+		}
+		r = hasQuant(a, memo)
+	}
+	memo[t] = r
+	return r
 }
